@@ -48,19 +48,23 @@ class WeightedAverage(Contract):
         a["valid_weight"] = lambda k: vsum(k, lambda i: If(valid(i), w[i], 0))
         a["invalid_weight"] = lambda k: vsum(k, lambda i: If(valid(i), 0, w[i]))
         a["valid_mass"] = lambda k: vsum(k, lambda i: If(valid(i), p[i] * w[i], 0))
+        a["valid_count"] = lambda k: vsum(k, lambda i: If(valid(i), 1, 0))
 
         def invariant(view, k):
             k = V(k)
-            nv, mean = V(view.N_valid_percentages), V(view.mean_value)
+            mean = V(view.mean_value)
             rej, non = V(view.rejected_weighting_sum), V(view.non_rejected_weighting_sum)
-            return unwrap(And(
-                rej == a["invalid_weight"](k), non == a["valid_weight"](k), mean == a["valid_mass"](k),
-                rej >= 0, non >= 0, nv >= 0, Implies(nv == 0, And(non == 0, mean == 0)),
-                lo * non <= mean, mean <= hi * non,
-            ))
+            inv = [rej == a["invalid_weight"](k), non == a["valid_weight"](k), mean == a["valid_mass"](k),
+                   rej >= 0, non >= 0, lo * non <= mean, mean <= hi * non]
+            nv = view.get("N_valid_percentages")
+            if nv is not None:
+                nv = V(nv)
+                inv += [nv == a["valid_count"](k), nv >= 0, Implies(nv == 0, And(non == 0, mean == 0))]
+            return unwrap(And(*inv))
 
         self.loops = {(IU, self.func, 0): LoopSpec(
             modifies=["N_valid_percentages", "mean_value", "rejected_weighting_sum", "non_rejected_weighting_sum"],
+            optional=["N_valid_percentages"],
             temporaries=["percentage", "weight", "i"], invariant=invariant, name="averaging_loop")}
         return a
 
@@ -78,6 +82,8 @@ class WeightedAverage(Contract):
             # the sentinel is the answer when nothing valid was given - or, within the function's admitted weight
             # tolerance, when the impossible values carry the whole unit weight (valid weight <= 1e-5)
             "sentinel_only_without_valid_weight": Implies(Not(real), Or(vw == 0, iw == 1)),
+            # and it IS the answer when no value at all was possible, whatever the weights sum to within the tolerance
+            "sentinel_when_nothing_valid": Implies(a["valid_count"](N) == 0, Not(real)),
         }
 
     def on_raise(self, S, a, exc):
@@ -123,32 +129,47 @@ class SecondCallAndFrame(Contract):
     file = IU
     np_floats = False
 
-    def __init__(self, which):
+    def __init__(self, which, nd=False):
         self.which = which
+        self.nd = nd
         self.func = "ImportUtilities.average_percentages" if which == "even" else "ImportUtilities.weighted_average_percentages"
-        self.name = f"second_call_{which}"
+        self.name = f"second_call_{which}" + ("_given_numpy_arrays" if nd else "")
+
+    def _seq(self, xs):
+        """The caller's sequence: a Python list, or (nd) a numpy float array as average_columns hands them on."""
+        from pyvc.values import Arr
+        return Arr(len(xs), elems=list(xs), dtype="float", is_nd=True) if self.nd else list(xs)
 
     def inputs(self, S):
         a, b, c = S.real("a"), S.real("b"), S.real("c")
         S.assume(And(a >= -100, a <= 100000, b >= -100, b <= 100000, c >= -100, c <= 100000))
         big = Fraction(10) ** 11
+        self.big = big
         if self.which == "even":
-            calls = [dict(func=self.func, args=[[big, unwrap(a), unwrap(b)]]), dict(func=self.func, args=[[unwrap(c), big, big]])]
+            self.first = self._seq([big, unwrap(a), unwrap(b)])
+            calls = [dict(func=self.func, args=[self.first]), dict(func=self.func, args=[self._seq([unwrap(c), big, big])])]
             return dict(calls=calls, a=a, b=b, c=c)
-        w = [Fraction(1, 4), Fraction(1, 2), Fraction(1, 4)]
+        w = self._seq([Fraction(1, 4), Fraction(1, 2), Fraction(1, 4)])
         self.w = w
-        calls = [dict(func=self.func, args=[[unwrap(a), big, unwrap(b)], w]), dict(func=self.func, args=[[unwrap(a), unwrap(c), unwrap(b)], w])]
+        self.first = self._seq([unwrap(a), big, unwrap(b)])
+        calls = [dict(func=self.func, args=[self.first, w]), dict(func=self.func, args=[self._seq([unwrap(a), unwrap(c), unwrap(b)]), w])]
         return dict(calls=calls, a=a, b=b, c=c)
+
+    def _same(self, seq, expected):
+        got = seq if isinstance(seq, list) else [seq.get(k) for k in range(len(expected))]
+        return And(*[V(g) == V(e) for g, e in zip(got, expected)]) if len(got) == len(expected) else V(False)
 
     def ensures(self, S, p, res):
         r1, r2 = res[0], res[1]
         a, b, c = p["a"], p["b"], p["c"]
         if self.which == "even":
             return {"first_call_is_the_mean_of_its_valid_values": r1 * 2 == a + b,
-                    "second_call_is_not_affected_by_the_first": r2 == c}
+                    "second_call_is_not_affected_by_the_first": r2 == c,
+                    "callers_values_left_as_they_were": self._same(self.first, [self.big, unwrap(a), unwrap(b)])}
         return {"first_call_is_the_weighted_mean_of_its_valid_values": r1 * Fraction(1, 2) == a * Fraction(1, 4) + b * Fraction(1, 4),
                 "second_call_is_not_affected_by_the_first": r2 == a * Fraction(1, 4) + c * Fraction(1, 2) + b * Fraction(1, 4),
-                "callers_weights_left_as_they_were": V(self.w == [Fraction(1, 4), Fraction(1, 2), Fraction(1, 4)])}
+                "callers_weights_left_as_they_were": self._same(self.w, [Fraction(1, 4), Fraction(1, 2), Fraction(1, 4)]),
+                "callers_values_left_as_they_were": self._same(self.first, [unwrap(a), self.big, unwrap(b)])}
 
 
 # ---- ground obligations on the shipped combined table ------------------------------------------------------
@@ -274,7 +295,8 @@ def ground_verify_country_data(repo, tier, seed):
              "replay": None if ok else {"verdict": "violates-natively", "detail": str(failures[:5])}}]
 
 
-CONTRACTS = [WeightedAverage()] + [EvenAverage(n) for n in (1, 2, 3, 5)] + [SecondCallAndFrame("even"), SecondCallAndFrame("weighted")]
+CONTRACTS = [WeightedAverage()] + [EvenAverage(n) for n in (1, 2, 3, 5)] + \
+    [SecondCallAndFrame(w, nd) for nd in (False, True) for w in ("even", "weighted")]
 EXTRA = [ground_table, ground_verify_country_data]
 TRUSTED = [
     "machine floats treated as mathematical reals (sentinel 9.37e36 exact)",
